@@ -36,6 +36,11 @@ Definition R_go_bad := Eval vm_compute in
    map (fun fs => (fs, run_generator gen_prog "T" fs, model_result "T" fs))
        (firstn 2 (filter (fun fs => negb (go_agrees_on gen_prog fs)) go_family))).
 Print R_go_bad.
+Definition R_tags_bad := Eval vm_compute in
+  (List.length (filter (fun tl => negb (tags_agree_on gen_prog tl)) tag_family),
+   map (fun tl => (tl, run_tagparser gen_prog tl, model_tags tl))
+       (firstn 3 (filter (fun tl => negb (tags_agree_on gen_prog tl)) tag_family))).
+Print R_tags_bad.
 """
 
 # ------------------------------------------------------------------ python-side helpers
@@ -269,10 +274,15 @@ def run(ctx):
     # as `no-failing-input-found`, a widened farm (other seed, three times the definitions)
     # searches for an observation that contradicts the specification itself
     indom_bad = [(i, c) for i, c in bad if not jsons[i]["kind"].startswith("out-of-domain")]
-    if indom_bad and not any(c == 1 for _, c in indom_bad):
-        ctx.log("only model-level differences so far: widened search for a failing input")
-        wargs = ["-seed", ctx.seed + 7919, "-mode", "random", "-n", 72 if quick else 300,
-                 "-limit", 5600000 if quick else 30000000, "-runs", 6]
+    # ... and so does a broken tie.  The widened farm goes beyond the regular sizes and shapes
+    # (6-9 tagged fields, 4-6 sorters per struct, long / non-ASCII identifiers, sort runs on slices of
+    # up to 300 (thorough: 1000) elements) and is capped: a fixed number of definitions, a budget of slices per
+    # sorter, a watchdog per sorter and for the whole farm.
+    if (indom_bad or not tie_ok or not go_ok) and not any(c == 1 for _, c in indom_bad):
+        ctx.log("no failing input yet (model-level difference / broken tie): widened search")
+        wargs = ["-seed", ctx.seed + 7919, "-mode", "random", "-n", 40 if quick else 300, "-wide",
+                 "-maxlen", 300 if quick else 1000,      # judged by an O(n^2) reference sort inside Coq
+                 "-limit", 2000000 if quick else 30000000, "-runs", 4 if quick else 6, "-watchdog", 120]
         wt, wj, werr = farm.run("wide", wargs, timeout=3000)
         if not werr:
             wbad, _, werr = farm.judge(wt, "wide")
